@@ -377,9 +377,17 @@ def main():
         out.write(json.dumps({"id": cid, "phase": "start", "len": n}) + "\n")
         path = None
         if via in ("path", "path_ft", "pathlib"):
-            path = os.path.join(tmpdir, "case_%d.%s" % (os.getpid(), ext))
+            # every child works in a directory of its own; files the model names are put next to it
+            mydir = os.path.join(tmpdir, "child_%d" % os.getpid())
+            os.makedirs(mydir, exist_ok=True)
+            path = os.path.join(mydir, "case_%d.%s" % (os.getpid(), ext))
             with mon._orig_open(path, "wb") as f:
                 f.write(data)
+            for cname, chex in (job["seeds"][sidx].get("companions") or {}).items():
+                cpath = os.path.join(mydir, os.path.basename(cname))
+                if not os.path.exists(cpath):
+                    with mon._orig_open(cpath, "wb") as f:
+                        f.write(bytes.fromhex(chex))
         fds0 = fd_count()
         rss0 = resource.getrusage(resource.RUSAGE_SELF).ru_maxrss * 1024
         try:
